@@ -68,7 +68,7 @@ Definition check_bits (s : kvstore) (obs : list (N * N * option bytes)) : bool :
   forallb (fun x => match x with (i, sec, v) => opt_eqb bytes_eqb (read_bloom_bits s i sec) v end) obs.
 
 Inductive case :=
-| CLogs (t : table) (logs : list log) (bloom : bytes) (tests : list (bytes * bool * list N))
+| CLogs (t : table) (logs : list (N * list N * bytes)) (bloom : sparse) (tests : list (N * bool * list N))
 | CKeys (h i s : N) (k1 k2 : bytes)
 | CComp (d c : bytes)
 | CDecomp (data : bytes) (target : N) (res : option bytes)
@@ -86,12 +86,16 @@ Fixpoint assoc_bloom (l : list (N * sparse)) (k : N) : bloom :=
 Definition case_ok (c : case) : bool :=
   match c with
   | CLogs t logs bloom tests =>
+      (* logs and probes refer to the entries of the table by index *)
       let K := lookup t in
-      bytes_eqb (logs_bloom K logs) bloom
-      && opt_eqb bytes_eqb (bytes_to_bloom bloom) (Some bloom)
-      && forallb (fun x => match x with (d, r, ps) =>
-                   eqb (bloom_test K d bloom) r && list_eqb N.eqb (bloom_positions K d) ps
-                   && eqb (forallb (bloom_bit bloom) ps) r end) tests
+      let item i := fst (nth (N.to_nat i) t ([], [])) in
+      let logs' := map (fun l => match l with (a, ts, d) => Log (item a) (map item ts) d end) logs in
+      let bloom' := mk_bloom bloom in
+      bytes_eqb (logs_bloom K logs') bloom'
+      && opt_eqb bytes_eqb (bytes_to_bloom bloom') (Some bloom')
+      && forallb (fun x => match x with (i, r, ps) =>
+                   eqb (bloom_test K (item i) bloom') r && list_eqb N.eqb (bloom_positions K (item i)) ps
+                   && eqb (forallb (bloom_bit bloom') ps) r end) tests
   | CKeys h i s k1 k2 => bytes_eqb (bloom_key h) k1 && bytes_eqb (bloom_bits_key i s) k2
   | CComp d c =>
       bytes_eqb (compress_bytes d) c && opt_eqb bytes_eqb (decompress_bytes c (length d)) (Some d)
